@@ -207,14 +207,16 @@ def check_iso(case, rec):
     if not np.array_equal(got[:4], np.repeat(got[:1], 4), equal_nan=True):
         rec.fail("isotropy:" + name, "%s differs between axis points of equal |q|=%g: %r" % (name, q, got[:4]))
     # generic directions: |q| is recomputed from rounded components, so allow the model's own
-    # sensitivity to a few ulp of q, measured on the 1-D kernel
+    # sensitivity to a few ulp of q, measured on the 1-D kernel, plus 1e-9 relative: a model that switches
+    # between a series and a closed form at some q (hardsphere at low q) jumps by its approximation error
+    # (2.5e-11 observed) when the two roundings of |q| fall on either side of the switch
     k1 = model.make_kernel([np.array([q * (1 - 4e-16), q, q * (1 + 4e-16)])])
     i1 = np.asarray(direct_model.call_kernel(k1, dict(pars), cutoff=0.0), float)
     sens = np.nanmax(np.abs(i1 - i1[1])) if np.any(np.isfinite(i1)) else 0.0
     sc = max(abs(got[0]) if np.isfinite(got[0]) else 0.0, 1e-300)
     for j in (4, 5):
         if np.isnan(got[j]) != np.isnan(got[0]) or (np.isfinite(got[0]) and
-                                                     abs(got[j] - got[0]) > 1e-12 * sc + 8 * sens):
+                                                     abs(got[j] - got[0]) > 1e-9 * sc + 8 * sens):
             rec.fail("isotropy:" + name, "%s at |q|=%g direction %d: %r vs %r (sens %g)" % (name, q, j, got[j], got[0], sens))
 
 
